@@ -19,5 +19,6 @@ PROP = dict(
         H(ST, "c43", "c43_query", "clock_offset reports the offset estimate + its standard deviation, clock_frequency the frequency estimate + its standard deviation (independent symbolic estimates); unknown clock -> Err"),
         H(ST, "c43", "c43_steer", "system clock only: every set_frequency(x) has |x| <= max of that clock; frequency estimate changes by exactly fl(x - current); a step changes the offset estimate by the applied Duration (<= 2^-64 s + one rounding), system clock step moves filter time; other entries bit-identical (350-480 s on a loaded machine)", tier="thorough", timeout_thorough=1800),
         H(ST, "c43", "c43_query_distinct", "regression harness for 7d1f9fc: with offset and frequency estimates that differ in value or variance the frequency query returns the frequency entry and its sd (fails on the pre-fix tree, replayed natively)", timeout=900),
-    ],
+        H("statime_h", "c42", "c42_ops_b", "the estimator index bookkeeping the controller's queries and steering rely on: removing a link in front of a clock keeps that clock's rows (shared with C42)", timeout=1200, timeout_thorough=1800, native_check="native::native_remove_link_keeps_later_clocks"),
+],
 )
